@@ -148,8 +148,11 @@ class Build:
                 raise BuildError("link janet_boot failed", self.log)
             for target, extra in (("janet.c", []), ("image.c", ["image-only"])):
                 with open(os.path.join(bdir, target), "wb") as f:
-                    r = subprocess.run([os.path.join(bdir, "janet_boot"), ".", "JANET_PATH", "/usr/local/lib/janet"] + extra,
-                                       cwd=self.tree, stdout=f, stderr=subprocess.PIPE)
+                    try:
+                        r = subprocess.run([os.path.join(bdir, "janet_boot"), ".", "JANET_PATH", "/usr/local/lib/janet"] + extra,
+                                           cwd=self.tree, stdout=f, stderr=subprocess.PIPE, timeout=600)
+                    except subprocess.TimeoutExpired:
+                        raise BuildError("bootstrap (%s) hung for 600 s" % target, self.log)
                 if r.returncode:
                     with open(self.log, "ab") as lf:
                         lf.write(r.stderr)
